@@ -124,6 +124,27 @@ fn c15_vtx_header_and_strings_total_quick() {
     }
 }
 
+// @harness
+// @prop C15
+// @tier thorough
+// @timeout 3000
+// @fn Vtx::load (identifier, stereo byte, header fields; the file ends where the strings block would start)
+// @sym every byte of a 16-byte VTX file (header only)
+// @assert for any header bytes the loader returns Err without panic or overflow, does not keep polling the reader at the end of the file, and rejects player frequency 0 on the header alone
+// @bound one file length (16 bytes, unwind 26)
+// @stub alloc::fmt::format -> empty string
+// @replay solver-only
+#[kani::proof]
+#[kani::unwind(26)]
+#[kani::stub(alloc::fmt::format, no_format)]
+fn c15_vtx_header_only_file() {
+    unsafe {
+        FAIL_READS_AFTER_REWIND = true;
+        REWOUND = false;
+    }
+    vtx_literal_tail_case(16, [0, 0, 0]);
+}
+
 /// header bytes symbolic, strings bytes literal: the number of terminators found is then a constant for the
 /// solver (with symbolic strings bytes the code behind the "five terminators" test is encoded although files
 /// this short cannot reach it - that is the thorough twin, which does not finish)
